@@ -1,2 +1,98 @@
-(* C18 placeholder *)
-From MPB Require Import Base.
+(* C18 — Pop-completed mode leaves each finished bar on screen exactly once.
+   Statements over Container.step; proofs in ContainerFlush.v, ContainerOut.v, ContainerProofs.v.
+   progress.go flush: on the frame with shutdown = 1 a finished bar gets the next pop
+   priority (below every priority the container hands out) and goes back to the heap; on
+   the frame with shutdown = 2 its rows are counted in popCount — the writer moves the
+   cursor up by rows - popCount only, so those rows are never overwritten — and the bar is
+   not pushed back. *)
+From Coq Require Import Sorted.
+From MPB Require Import Base BaseProofs BarState Container ContainerProofs ContainerFlush ContainerOut Term.
+
+Theorem C18_finished_bar_gets_next_pop_priority : forall s b nrows rmf s',
+  step s (CT_FLUSHBAR b 1 nrows rmf false false) = Some s' -> cycle_err s = false ->
+  lookup b (queue s) = None -> pop_mode s = true ->
+  prio_of s' b = pop_prio s /\ pop_prio s' = pop_prio s + 1 /\
+  (exists wd ht rows n pc pushes rows' n',
+      ph s = Rendering wd ht rows n pc pushes /\ ph s' = Rendering wd ht rows' n' pc (pushes ++ [(b, false)])) /\
+  retired s' = retired s.
+Proof. exact flush_pop_assign. Qed.
+Print Assumptions C18_finished_bar_gets_next_pop_priority.
+
+(* drawn once more at its new place, then out of rendering for good; its rows are excluded from the
+   cursor-up of the next frame *)
+Theorem C18_popped_bar_leaves_rendering : forall s b nrows rmf s',
+  step s (CT_FLUSHBAR b 2 nrows rmf false false) = Some s' -> cycle_err s = false -> pop_mode s = true ->
+  In b (retired s') /\
+  (exists wd ht rows n pc pushes taken used,
+      ph s = Rendering wd ht rows n pc pushes /\ ph s' = Rendering wd ht (rows ++ taken) (n + used) (pc + used) pushes) /\
+  pop_prio s' = pop_prio s.
+Proof. exact flush_pop_retire. Qed.
+Print Assumptions C18_popped_bar_leaves_rendering.
+
+Theorem C18_popped_bar_never_drawn_again : forall p a d evs s b sh nrows rmf np err,
+  run (init_cst p a d) evs = Some s -> In b (retired s) -> step s (CT_FLUSHBAR b sh nrows rmf np err) = None.
+Proof. exact retired_never_flushed. Qed.
+Print Assumptions C18_popped_bar_never_drawn_again.
+
+(* the popped rows stay: the next frame rewrites only the last rows - popCount lines (with C04) *)
+Theorem C18_popped_rows_persist : forall p a d evs s n pc s',
+  run (init_cst p a d) evs = Some s -> step s (CT_FRAME n pc) = Some s' -> delayed s = false -> outframes s' <> outframes s ->
+  exists hist lv txt rows,
+    screen s = hist ++ lv /\ all_text txt = true /\ all_row rows = true /\ Z.of_nat (length rows) = n /\
+    screen s' = hist ++ txt ++ rows /\
+    cwbuf s' = cuu_items (Z.max 0 (n - pc)) /\ 0 <= pc <= n.
+Proof. exact frame_redraws_in_place. Qed.
+Print Assumptions C18_popped_rows_persist.
+
+(* pop priorities are handed out in increasing order: order of finishing = order on screen *)
+Theorem C18_pop_priority_monotone : forall s evs s', run s evs = Some s' -> pop_prio s <= pop_prio s'.
+Proof. exact pop_prio_monotone. Qed.
+Print Assumptions C18_pop_priority_monotone.
+
+(* no-pop bars keep their place *)
+Theorem C18_nopop_bar_keeps_its_place : forall s b sh nrows s',
+  step s (CT_FLUSHBAR b sh nrows false true false) = Some s' -> cycle_err s = false -> lookup b (queue s) = None ->
+  prio_of s' b = prio_of s b /\ retired s' = retired s /\ pop_prio s' = pop_prio s /\
+  (exists wd ht rows n pc pushes rows' n',
+      ph s = Rendering wd ht rows n pc pushes /\ ph s' = Rendering wd ht rows' n' pc (pushes ++ [(b, false)])).
+Proof. exact flush_nopop_stays. Qed.
+Print Assumptions C18_nopop_bar_keeps_its_place.
+
+(* rows of a frame are in priority order (shared with C06): the popped bar, holding the lowest priority,
+   is popped last and so written first, above every running bar *)
+Theorem C18_rows_in_priority_order : forall p a d evs s,
+  run (init_cst p a d) evs = Some s -> iter_dirty s = false ->
+  StronglySorted ge_rel (map snd (cycle_pops s)).
+Proof. exact pops_sorted. Qed.
+Print Assumptions C18_rows_in_priority_order.
+
+Example C18_nonvacuous :
+  exists s, run (init_cst true true false)
+    [CT_OP; CT_ADD 0 0 0 2 None None false false true 0 false; HM_PUSH 0 true 0 false 0;
+     CT_OP; CT_ADD 1 1 1 9 None None false false true 0 false; HM_PUSH 1 true 1 true 0;
+     CL_OP 1 (IncrInt64 9); BAR_OP 1 9 9 0 true false false 0;
+     (* frame 1: bar 1 shown completed *)
+     CT_RENDERBEGIN; HM_SYNC 2 true 0; HM_ITERREQ true 2; CT_RENDERSIZE 80 24;
+     BAR_RENDER 0 0 2 0 false false 0; BAR_OP 0 0 2 0 true false false 0;
+     BAR_RENDER 1 9 9 0 false true 0; BAR_OP 1 9 9 0 true false false 1;
+     HM_POP 1 1; HM_POP 0 0;
+     CT_FLUSHBAR 1 0 1 false false false; CT_FLUSHBAR 0 0 1 false false false; CT_FRAME 2 0;
+     OUT [IRow 0 0 2 false false; IRow 1 9 9 true false];
+     HM_PUSH 1 false 0 false 2; HM_PUSH 0 false 1 false 2;
+     (* frame 2: shutdown = 1, bar 1 gets the pop priority *)
+     CT_RENDERBEGIN; HM_SYNC 2 false 2; HM_ITERREQ true 2; CT_RENDERSIZE 80 24;
+     BAR_RENDER 0 0 2 0 false false 0; BAR_OP 0 0 2 0 true false false 0;
+     BAR_RENDER 1 9 9 0 false true 1; BAR_OP 1 9 9 0 true false false 2;
+     HM_POP 1 1; HM_POP 0 0;
+     CT_FLUSHBAR 1 1 1 false false false; CT_FLUSHBAR 0 0 1 false false false; CT_FRAME 2 0;
+     OUT [ICuu 2; IRow 0 0 2 false false; IRow 1 9 9 true false];
+     HM_PUSH 1 false 0 false 2; HM_PUSH 0 false 1 false 2;
+     (* frame 3: bar 1 is on top and leaves *)
+     CT_RENDERBEGIN; HM_SYNC 2 false 2; HM_ITERREQ true 2; CT_RENDERSIZE 80 24;
+     BAR_RENDER 0 0 2 0 false false 0; BAR_OP 0 0 2 0 true false false 0;
+     BAR_RENDER 1 9 9 0 false true 2;
+     HM_POP 0 0; HM_POP 1 (-2147483648);
+     CT_FLUSHBAR 0 0 1 false false false; CT_FLUSHBAR 1 2 1 false false false; CT_FRAME 2 1;
+     OUT [ICuu 2; IRow 1 9 9 true false; IRow 0 0 2 false false]] = Some s
+  /\ retired s = [1] /\ cwbuf s = [ICuu 1] /\ screen s = [IRow 1 9 9 true false; IRow 0 0 2 false false].
+Proof. eexists. vm_compute. repeat split. Qed.
